@@ -192,16 +192,23 @@ _TEMPLATES = [
 ]
 
 
-def _program(names, shape):
+# forms outside the dialect picotool reads today (Lua allows blanks inside a label statement; picotool's lexer
+# does not).  Used by the search only: if a change makes picotool accept them, renaming must be consistent there
+# too; while it rejects them (LexerError / ParserError) the case carries no claim.
+_TEMPLATES_EXT = [(b'goto %s\n:: %s ::\n', 2), (b'::\t%s  ::\ngoto %s\n', 2), (b':: %s::\ngoto %s\n', 2)]
+
+
+def _program(names, shape, ext=False):
     import random
     r = random.Random(shape)
+    templates = _TEMPLATES + (_TEMPLATES_EXT * 3 if ext else [])
     out = [b'-- title\n', b'-- by\n'] if shape % 3 == 0 else []
     i = 0
     names = list(names)
     while i < len(names):
-        t, k = r.choice(_TEMPLATES)
+        t, k = r.choice(templates)
         args = [names[(i + j) % len(names)] for j in range(k)]
-        if t.startswith(b'goto'):
+        if b'goto' in t:
             args = [args[0], args[0]]
         out.append(t % tuple(args))
         i += k
@@ -254,7 +261,8 @@ def _idents(tokens):
         if isinstance(t, lexer.TokName):
             ids.append(bytes(t.code))
         elif isinstance(t, lexer.TokLabel):
-            ids.append(bytes(t.code)[2:-2])
+            # the label's name, read off the token text by the rule of the language (not by the library's slicing)
+            ids.append(bytes(t.code).strip(b':').strip(b' \t'))
     return kinds, ids
 
 
@@ -304,7 +312,7 @@ def run_impl(case):
             obs['outs'] = [bytes(f.get_short_name(n)) for n in names]
             obs['next_id'] = f._next_name_id
             return obs
-        src = _program(names, case.get('shape', 0))
+        src = _program(names, case.get('shape', 0), ext=bool(case.get('ext')))
         lines = [ln + b'\n' for ln in src.split(b'\n')[:-1]]
         li = lua.Lua.from_lines(lines, version=8)
         ikinds, iids = _idents(li.tokens)
@@ -348,6 +356,8 @@ def run_impl(case):
         obs['out'] = out
         return obs
     except Exception as e:  # noqa
+        if case.get('ext') and lib.exc_name(e) in ('ParserError', 'LexerError'):
+            return {'outside': True}
         return {'raised': lib.exc_name(e) + ' ' + str(e)[:100]}
     finally:
         for p in files:
@@ -395,6 +405,8 @@ def compare(case, obs, answers):
             return 'read_names_file: implementation %r, model %r' % (obs['set'][:8], got[:8])
         if sorted(set(_keep_spec(lib.unhx(case['kf'])))) != obs['set']:
             return 'read_names_file: implementation %r, documented format %r' % (obs['set'][:8], _keep_spec(lib.unhx(case['kf']))[:8])
+        return None
+    if obs.get('outside'):
         return None
     if 'raised' in obs:
         return '%s raised %s' % (kind, obs['raised'])
@@ -560,6 +572,9 @@ def search(ctx, budget):
             for c in gen_writer(rng, 10):
                 yield c
             for c in gen_cli(rng, 5):
+                yield c
+            for c in gen_writer(rng, 6):       # forms beyond today's dialect (see _TEMPLATES_EXT)
+                c['ext'] = 1
                 yield c
     gen = mixed()
     try:
